@@ -574,3 +574,8 @@ def _sp_unlink(interp, p, *a, **k):
 
 OBJ_METHODS[("Hasher", "update")] = models._hasher_update
 OBJ_METHODS[("Hasher", "hexdigest")] = models._hasher_hexdigest
+
+
+OBJ_METHODS[("FileObj", "write")] = models._file_write
+OBJ_METHODS[("FileObj", "__enter__")] = models._file_enter
+OBJ_METHODS[("FileObj", "__exit__")] = models._file_exit
